@@ -68,12 +68,12 @@ Section Bounds.
     (cowat_in_range t p -> has_value (runR cowat_on_traced fn coef [t; p])) /\
     (~ cowat_in_range t p -> runR cowat_on_traced fn coef [t; p] = RNone).
   Proof.
-    remember (cowat_zp t p) as Z eqn:EZ.
-    unfold cowat_zp in EZ.
-    lazy [last_test cowat_on_traced t_paths p_conds rev app snd c_b] in EZ.
+    (* all steps keep the two sides of every conversion syntactically aligned: the kernel never
+       has to compare two unevaluated DAG values *)
+    unfold cowat_zp. lazy [last_test cowat_on_traced t_paths p_conds rev app snd c_b].
     open_run cowat_on_traced.
-    rewrite <- EZ. clear EZ.
     ev_nodes cowat_on_nodes.
+    match goal with |- context [Rleb (Q2R 0) ?z] => generalize z; intros Z end.
     unfold cowat_in_range, sat_, f_sat, d001, has_value.
     replace (Q2R 0) with 0 by (unfold Q2R; cbn; lra).
     split_cmps; intros HZ; (split; [intros HR | intros HN]);
